@@ -18,6 +18,10 @@ from .clock import frozen
 from .vnet import clk_ceil, clk_floor
 
 
+EOF_WAIT = [15.0]
+TIMEOUTS = [0]
+
+
 class BodyError(Exception):
     pass
 
@@ -119,8 +123,13 @@ class LifeRun:
             return False
         conn = self.dev_conns[-1]
         try:
-            await asyncio.wait_for(conn["closed"].wait(), 2.0)
+            # real sockets: end-of-stream normally shows up within a millisecond; the generous limit only guards against a
+            # loaded machine (a socket that is never closed is reported by the virtual portion at once, deterministically)
+            await asyncio.wait_for(conn["closed"].wait(), EOF_WAIT[0])
         except asyncio.TimeoutError:
+            TIMEOUTS[0] += 1
+            if TIMEOUTS[0] >= 3:
+                EOF_WAIT[0] = 0.2          # the point is made; do not spend minutes on the remaining scenarios
             return False
         return bool(conn["eof"])
 
